@@ -49,8 +49,6 @@ def exceptions : List (Name × Exception) := [
   (nm! "jitterbuffer.node.", .trusted "nodes of PriorityQueue, same protection"),
   (nm! "jitterbuffer.JitterBuffer.listeners", .trusted "Listen is a set-up time registration; emit reads under JitterBuffer.mutex"),
   (nm! "jitterbuffer.JitterBuffer.state", .trusted "the interceptor's private JitterBuffer: every access from ReceiverInterceptor holds ReceiverInterceptor.m, JitterBuffer's own methods hold JitterBuffer.mutex; the two lock sets never meet on different instances"),
-  (nm! "rtpfb.PacketReport.", .trusted "TEMP F-18"),
-  (nm! "rtpfb.history.highestAcked", .trusted "TEMP F-18"),
   (nm! "flexfec.fecDecoder.", .trusted "work-in-progress decoder, not wired into any interceptor"),
   (nm! "flexfec.protectedPacket.", .trusted "work-in-progress decoder, not wired into any interceptor"),
   (nm! "rtpbuffer.RetainablePacket.header", .trusted "reference-counted: written by Release only when the count reaches zero (C04 refcount theorem)"),
